@@ -69,6 +69,17 @@ def mk_tree(p, mtime=1_700_000_000):
                                            "hU " + p + "\tURL:http://www.example.com/" + p + "\n7S " + p + "\t/s" + p + "\n"
                                            "7RS " + p + "\t/rs" + p + "\trhost" + p + ".example\t7072\n7US " + p + "\tURL:http://q.example/" + p + "\n"},
         {"path": "text.txt", "data": "line " + p + "\n\n" + p + "\n<p>&amp;</p>\n"},
+        # a title spread over several lines, some of which look like Gopher+ block headers
+        {"path": "page3.html", "data": "<html><head><title>M " + p + "\n" + h("+ADMIN:\n+ABSTRACT: x\n+FAKE:\n+" + p + ":", "admin\nabstract x\nfake\ninert")
+                                        + "\n tail</title></head><body></body></html>\n"},
+        # text documents (converted to WML for WAP) with every kind of ending
+        {"path": "text2.txt", "data": "first line\n" + p},                                   # last line not terminated
+        {"path": "text3.txt", "data": p + "\r" + p + "\r" + h("<b>", "bbb")},                  # CR only
+        {"path": "text4.txt", "data": "a " + p + "\nb " + h("<", "x")},                       # a lone final "<"
+        {"path": "text5.txt", "data": "a\n" + p + h("&", "x")},                               # a lone final "&"
+        {"path": "text6.txt", "data": ""},                                                    # empty
+        {"path": "text7.txt", "data": h("<", "x")},                                           # one character
+        {"path": "text8.txt", "data": p + "\n\n\n" + p + "  \t"},                             # blank lines, trailing blanks, no newline
     ]
     for e in t:
         e["mtime"] = mtime
@@ -87,18 +98,64 @@ def mk_requests(p):
         R.append((f"{proto}:404-search", b"GET " + pre + b"/nonexistent?searchrequest=" + q + b" HTTP/1.0\r\n\r\n", tls))
         R.append((f"{proto}:url-redirect", b"GET " + pre + b"/URL:http://www.example.com/" + q + b" HTTP/1.0\r\n\r\n", tls))
         R.append((f"{proto}:text", b"GET " + pre + b"/text.txt HTTP/1.0\r\n\r\n", tls))
+        for n in range(2, 9):
+            R.append((f"{proto}:text{n}", b"GET " + pre + b"/text%d.txt HTTP/1.0\r\n\r\n" % n, tls))
+        # request headers are request data too
+        R.append((f"{proto}:listing-hdr:/", b"GET " + pre + b"/ HTTP/1.0\r\n" + hostile_headers(p) + b"\r\n", tls))
+        R.append((f"{proto}:listing-hdr:/umn", b"GET " + pre + b"/umn HTTP/1.0\r\n" + hostile_headers(p) + b"\r\n", tls))
+        R.append((f"{proto}:404-hdr", b"GET " + pre + b"/nonexistent HTTP/1.0\r\n" + hostile_headers(p) + b"\r\n", tls))
+        R.append((f"{proto}:text-hdr", b"GET " + pre + b"/text.txt HTTP/1.0\r\n" + hostile_headers(p) + b"\r\n", tls))
         fq = gen.pct(p.replace("/", "_").encode("utf-8", "surrogateescape"), safe=b"")
         R.append((f"{proto}:doc-named", b"GET " + pre + b"/f1-" + fq + b".txt HTTP/1.0\r\n\r\n", tls))
         for n in (b"1", b"2", b"3"):
             R.append((f"{proto}:mail-{n.decode()}", b"GET " + pre + b"/mail.mbox%7C/MBOX-MESSAGE/" + n + b" HTTP/1.0\r\n\r\n", tls))
         R.append((f"{proto}:head", b"HEAD " + pre + b"/f1-" + gen.pct(p.replace("/", "_").encode(), safe=b"") + b".txt HTTP/1.0\r\n\r\n", tls))
+    # a WAP browser recognised by its headers alone (no /wap prefix)
+    R.append(("wap:auto-hdr:/", b"GET / HTTP/1.0\r\n" + hostile_headers(p, wap=True) + b"\r\n", False))
     for path in (b"/", b"/umn", b"/maps", b"/abs.txt", b"/long.txt", b"/mail.mbox", b"/mail.mbox|/MBOX-MESSAGE/1", b"/mail.mbox|/MBOX-MESSAGE/2",
-                 b"/mail.mbox|/MBOX-MESSAGE/3", b"/page.html", b"/page2.html"):
+                 b"/mail.mbox|/MBOX-MESSAGE/3", b"/page.html", b"/page2.html", b"/page3.html"):
         R.append(("gopherplus:$:" + path.decode(), path + b"\t$\r\n", False))
         R.append(("gopherplus:!:" + path.decode(), path + b"\t!\r\n", False))
         R.append(("sgopherplus:!:" + path.decode(), path + b"\t!\r\n", True))
     R.append(("gopherplus:404", b"/nonexistent-" + p.encode("utf-8").replace(b"\t", b" ") + b"\t!\r\n", False))
-    return R
+    # every request once more, in the same process and after all the others: an answer must not depend on
+    # what the server has already been asked
+    return R + [(lab + "#2", d, t) for lab, d, t in R]
+
+
+def hostile_headers(p, wap=False):
+    """a header block in which every value carries the payload (a header value cannot hold CR or LF)"""
+    v = p.replace("\r", " ").replace("\n", " ").encode("utf-8", "surrogateescape")
+    lines = [b"Host: " + v, b"User-Agent: Mozilla/5.0 " + v, b"Referer: http://" + v + b"/", b"Cookie: " + v,
+             b"X-Forwarded-Host: " + v, b"Accept-Language: " + v, b"Authorization: Basic " + v]
+    if wap:
+        lines += [b"Accept: text/html, text/vnd.wap.wml, " + v, b"X-Wap-Profile: " + v]
+    else:
+        lines += [b"Accept: text/html, " + v]
+    return b"".join(l + b"\r\n" for l in lines)
+
+
+GPLUS_DIRS = {"/", "/umn", "/maps", "/mail.mbox"}
+GPLUS_BLOCKS = {b"+INFO", b"+ADMIN", b"+VIEWS", b"+ABSTRACT", b"+KEYWORDS", b"+ASK", b"+3D", b"+URL"}
+
+
+def gplus_structure_problem(resp):
+    """None, or why the reply is not a well-formed Gopher+ attribute listing: between two +INFO lines every block
+    name occurs at most once and is one the server has (the built-in ones and the configured sidecar blocks)"""
+    seen = set()
+    for h_ in gplus_headers(resp):
+        if h_ == b"+INFO":
+            seen = set()
+        if h_ not in GPLUS_BLOCKS:
+            return "a block %r the server does not have" % h_.decode("latin-1")
+        if h_ in seen:
+            return "block %s twice in one item" % h_.decode("latin-1")
+        seen.add(h_)
+    return None
+
+
+WML_TEXT_TAGS = {"wml", "card", "p"}
+RAW_AMP = re.compile(rb"&(?!(?:amp|lt|gt|quot|#x27);)")
 
 
 def gplus_headers(resp):
@@ -128,9 +185,15 @@ def run(tier):
             reqs = mk_requests(p) if variant == "hostile" else None
         hreqs = mk_requests(p)
         ireqs = mk_requests(INERT)
-        jobs.append({"op": "world", "tree": mk_tree(p), "config": trees.SITE_CONFIG,
+        # stock configuration (no servername, shipped page topper) for one half of the payloads; a configured
+        # servername and no page topper for the other half
+        if len(meta) % 2 == 0:
+            cfg = {k_: v_ for k_, v_ in trees.SITE_CONFIG.items() if k_ != "protocols.http.HTTPProtocol"}
+        else:
+            cfg = dict(trees.SITE_CONFIG, pygopherd={"servername": "gopher.example"})
+        jobs.append({"op": "world", "tree": mk_tree(p), "config": cfg,
                      "requests": [{"data": gen.lat(d), "tls": t} for _, d, t in hreqs]})
-        jobs.append({"op": "world", "tree": mk_tree(INERT), "config": trees.SITE_CONFIG,
+        jobs.append({"op": "world", "tree": mk_tree(INERT), "config": cfg,
                      "requests": [{"data": gen.lat(d), "tls": t} for _, d, t in ireqs]})
         meta.append((p, hreqs, ireqs))
     res = impl_run_parallel(jobs)
@@ -143,6 +206,8 @@ def run(tier):
         ires = res[2 * k + 1]["res"]["results"]
         inert_by_label = {lab: r_ for (lab, _, _), r_ in zip(ireqs, ires)}
         for (label, data, tls), ho, io_ in zip(hreqs, hres, ires):
+            round2 = label.endswith("#2")
+            label = label[:-2] if round2 else label
             hb, ib = ho["out"].encode("latin-1"), io_["out"].encode("latin-1")
             if label.endswith(":url-redirect"):
                 # the redirect handler refuses quotes and control characters: such a selector is simply not found,
@@ -153,8 +218,9 @@ def run(tier):
                 except V.Malformed:
                     pass
             stats["pages"] += 1
-            chk.count((p, label), nontrivial=True)
+            chk.count((p, label, round2), nontrivial=True)
             proto = label.split(":")[0]
+            where = label + (" (asked a second time)" if round2 else "")
             if proto in ("http", "https", "wap"):
                 try:
                     hv, iv = V.validate(proto, hb), V.validate(proto, ib)
@@ -183,19 +249,42 @@ def run(tier):
                         stats["skeleton_diffs"] += 1
                         found = True
                         j = next((i for i in range(min(len(hs), len(is_))) if hs[i] != is_[i]), min(len(hs), len(is_)))
-                        chk.violation({"what": "data changes the element/attribute structure of a generated page", "position": label,
+                        chk.violation({"what": "data changes the element/attribute structure of a generated page", "position": where,
                                        "payload": p, "request_latin1": gen.lat(data), "first_structural_difference": j,
                                        "hostile_event": repr(hs[j]) if j < len(hs) else None,
                                        "inert_event": repr(is_[j]) if j < len(is_) else None,
                                        "page_excerpt": _excerpt(hv["body"], p), "tree": "mk_tree(payload)"},
                                       tag=f"markup-injection:{proto}:{label.split(':')[1]}")
+                if proto == "wap" and label.split(":")[1].startswith("text") and ctype.startswith(b"text/vnd.wap.wml"):
+                    # a converted text document: nothing but the frame of the deck, and no stray ampersand
+                    odd = [e_ for e_ in V.html_skeleton(hv["body"]) if e_[1] not in WML_TEXT_TAGS]
+                    amp = RAW_AMP.search(hv["body"])
+                    if odd or amp:
+                        stats["skeleton_diffs"] += 1
+                        found = True
+                        chk.violation({"what": "a text document converted to WML contains markup of its own"
+                                               if odd else "a text document converted to WML contains an unescaped ampersand",
+                                       "position": where, "payload": p, "request_latin1": gen.lat(data),
+                                       "foreign_elements": repr(odd[:5]), "stray_ampersand_at": amp.start() if amp else None,
+                                       "page_tail": hv["body"][-200:].decode("latin-1"), "tree": "mk_tree(payload)"},
+                                      tag=f"markup-injection:wap:{label.split(':')[1]}")
+            elif label.split(":")[1] == "$" and label.split(":", 2)[2] not in GPLUS_DIRS:
+                pass   # "$" on a document sends the document: its lines are content, not an attribute listing
             else:
                 proto = "gopherplus"
+                why = gplus_structure_problem(hb)
+                if why:
+                    stats["gplus_header_diffs"] += 1
+                    found = True
+                    chk.violation({"what": "a Gopher+ attribute listing is not made of the server's blocks: " + why, "position": where,
+                                   "payload": p, "request_latin1": gen.lat(data),
+                                   "block_headers": [x.decode("latin-1") for x in gplus_headers(hb)][:30],
+                                   "response_head_latin1": ho["out"][:400]}, tag="gplus-block-injection")
                 hh, ih = gplus_headers(hb), gplus_headers(ib)
                 if hh != ih:
                     stats["gplus_header_diffs"] += 1
                     found = True
-                    chk.violation({"what": "content lines pass for Gopher+ block headers", "position": label, "payload": p,
+                    chk.violation({"what": "content lines pass for Gopher+ block headers", "position": where, "payload": p,
                                    "request_latin1": gen.lat(data), "block_headers_hostile": [x.decode("latin-1") for x in hh][:30],
                                    "block_headers_inert": [x.decode("latin-1") for x in ih][:30]}, tag="gplus-block-injection")
     chk.sample({"payload": meta[0][0], "position": meta[0][1][0][0], "request_latin1": gen.lat(meta[0][1][0][1]),
@@ -203,7 +292,8 @@ def run(tier):
     chk.coverage["oracle"] = dict(stats, payloads=len(payloads), positions_per_payload=len(meta[0][1]))
     chk.coverage["rule"] = ("payload grammar (< > & \" ' entity look-alikes, comment/CDATA delimiters, attribute breakers) placed in every echo "
                             "position at once (file and directory names, HTML titles, mail subjects, abstracts, .Links Name/Path/Host, gophermap "
-                            "fields, request selector, search string, URL redirect, text-to-WML) and the page compared, element/attribute skeleton by "
+                            "fields, request selector, search string, request headers, URL redirect, text-to-WML of documents with every kind of ending), every request "
+                            "issued twice in one process, with and without a configured servername / page topper, and the page compared, element/attribute skeleton by "
                             "html.parser, with the page of an identically shaped inert site; HTTP header blocks and Gopher+ block headers likewise")
     # ---- K: the Coq renderers / readers against the real code (harness/k06.py) ----
     kmism, kerr, kdetails = run_k13(chk, tier)
